@@ -74,7 +74,7 @@ CHECKS = {
   category='model_checking',
   text='spec/KfacRef.tla: the step term is Scale(nu, Pre(...)) with ONE nu = Clip(kl@steps, lr@steps) over all layers, or unscaled when kl_clip is None; TLC-generated behaviours (clip active / inactive / callable / None / scheduler-driven) replayed at W=1 and W in {2,4} under all strategies with gradients compared to the interpreted term; direct checks on real executions: final = nu * unclipped with one positive scalar for all layers and ranks, nu = min(1, sqrt(kl/|vg|)), nu^2 lr^2 |vg| <= kl, zero gradient -> nu = 1, kl_clip=None == unclipped.',
   ref='DESIGN.md 5 (C07)',
-  note='GPT-NeoX model-parallel clipping is part of C11. Real-valued data sampled.',
+  note='GPT-NeoX model-parallel clipping is part of C11; GPT-NeoX pipeline-parallel clipping is checked here and is the open known finding F12 (known_findings.json). Real-valued data sampled.',
   technique='TLA+ spec (KfacRef.tla) + TLC behaviours replayed on simdist; direct consequence checks on executions'),
  'C09': dict(
   category='model_checking',
